@@ -161,7 +161,18 @@ class DefaultApplicationConfig(ApplicationConfig):
     def print_version(
         self, event, event_name, dispatcher
     ):  # type: (PreHandleEvent, str, EventDispatcher) -> None
-        if event.args.is_option_set("version"):
+        args = event.args
+        raw_args = args.raw_args
+
+        # A lenient parse stops at the first token it cannot handle:
+        # the switch may stand behind it, so look at the option tokens as well
+        if args.is_option_set("version") or (
+            raw_args is not None
+            and (
+                raw_args.has_option_token("-V")
+                or raw_args.has_option_token("--version")
+            )
+        ):
             version = NameVersion(event.command.application.config)
             version.render(event.io)
 
